@@ -449,3 +449,132 @@ def np_random_choice(m, args, kw, node):
         m.assume(z3.And(r.t >= 0, r.t < n_t))
         return r
     raise Unsupported("np.random.choice over a sequence", node)
+
+
+# -- heapq: faithful port of CPython's pure-python heapq (binary heap on a list) --------------------
+
+
+def _heap_lt(m, x, y, node):
+    c = m.compare(ast.Lt(), x, y, node)
+    return c if isinstance(c, bool) else m.branch(c.t, node)
+
+
+def _siftdown(m, heap, startpos, pos, node):
+    newitem = heap[pos]
+    while pos > startpos:
+        parentpos = (pos - 1) >> 1
+        parent = heap[parentpos]
+        if _heap_lt(m, newitem, parent, node):
+            heap[pos] = parent
+            pos = parentpos
+            continue
+        break
+    heap[pos] = newitem
+
+
+def _siftup(m, heap, pos, node):
+    endpos = len(heap)
+    startpos = pos
+    newitem = heap[pos]
+    childpos = 2 * pos + 1
+    while childpos < endpos:
+        rightpos = childpos + 1
+        if rightpos < endpos and not _heap_lt(m, heap[childpos], heap[rightpos], node):
+            childpos = rightpos
+        heap[pos] = heap[childpos]
+        pos = childpos
+        childpos = 2 * pos + 1
+    heap[pos] = newitem
+    _siftdown(m, heap, startpos, pos, node)
+
+
+def _heap_list(m, v, node):
+    v = m.force(v, node)
+    if not isinstance(v, SList):
+        raise Unsupported("heapq on a list of symbolic length", node)
+    return v
+
+
+@ext("heapq.heappush", "CPython heapq.heappush (ported verbatim; binary heap on a list)")
+def heapq_heappush(m, args, kw, node):
+    h = _heap_list(m, args[0], node)
+    m.note_write(h)
+    h.items.append(args[1])
+    _siftdown(m, h.items, 0, len(h.items) - 1, node)
+
+
+@ext("heapq.heappop", "CPython heapq.heappop (ported verbatim)")
+def heapq_heappop(m, args, kw, node):
+    h = _heap_list(m, args[0], node)
+    m.note_write(h)
+    if not h.items:
+        raise PyRaise("IndexError", node)
+    lastelt = h.items.pop()
+    if h.items:
+        returnitem = h.items[0]
+        h.items[0] = lastelt
+        _siftup(m, h.items, 0, node)
+        return returnitem
+    return lastelt
+
+
+@ext("heapq.heapify", "CPython heapq.heapify (ported verbatim)")
+def heapq_heapify(m, args, kw, node):
+    h = _heap_list(m, args[0], node)
+    m.note_write(h)
+    n = len(h.items)
+    for i in reversed(range(n // 2)):
+        _siftup(m, h.items, i, node)
+
+
+# -- time / datetime: opaque, only monotonicity of time.time() is modelled ----------------------------
+
+
+@ext("time.time", "real clock: every call returns a value >= the previous one (arbitrary otherwise)")
+def time_time(m, args, kw, node):
+    prev = getattr(m, "_clock", None)
+    r = m.fresh_scalar("real", "time.time")
+    if prev is not None:
+        m.assume(r.t >= prev.t)
+    else:
+        m.assume(r.t >= 0)
+    m._clock = r
+    m.assumption_notes.add("ambient:time.time -- wall clock, monotone non-decreasing")
+    return r
+
+
+@ext("datetime.datetime.now", "opaque time stamp")
+def dt_now(m, args, kw, node):
+    return ExtObj("datetime")
+
+
+@ext("datetime.timedelta", "opaque duration")
+def dt_delta(m, args, kw, node):
+    return ExtObj("timedelta", {"seconds": kw.get("seconds", args[0] if args else 0)})
+
+
+@ext("datetime.datetime", "opaque time stamp")
+def dt_ctor(m, args, kw, node):
+    return ExtObj("datetime")
+
+
+@ext("collections.defaultdict", "dict that creates missing values with the factory")
+def coll_defaultdict(m, args, kw, node):
+    d = SDict()
+    d.default_factory = args[0] if args else None
+    return d
+
+
+@ext("numpy.random.randint", "GLOBAL numpy RNG: arbitrary integer in [low, high) (ambient randomness, cf. C11)")
+def np_random_randint(m, args, kw, node):
+    lo = args[0] if args else kw.get("low")
+    hi = args[1] if len(args) > 1 else kw.get("high")
+    if hi is None:
+        lo, hi = 0, lo
+    m.assumption_notes.add("ambient:numpy.random.randint -- reads the process-global generator")
+    lo_t, hi_t = m.z(m.force(lo), "int"), m.z(m.force(hi), "int")
+    if m.branch(lo_t >= hi_t, node):
+        raise PyRaise("ValueError", node)
+    r = m.fresh_scalar("int", "np.random.randint")
+    m.assume(z3.And(r.t >= lo_t, r.t < hi_t))
+    return r
